@@ -14,6 +14,8 @@ import time
 import traceback
 
 VERIF = os.path.dirname(os.path.dirname(os.path.abspath(__file__)))
+# experiments on scratch copies of the repository (tools/seedmatrix.sh) write their evidence and replays elsewhere
+OUT = os.environ.get("VERIF_OUT") or VERIF
 VENV_PY = "/venv/bin/python"
 
 
@@ -206,7 +208,7 @@ def run_property(pid, tier="quick", repo_root=None, jobs=None):
     guard_fail = [g for g in guards if g["status"] != "unsat"]
     known_names = {ob["name"] for _kf, ob in known}
     n_obl = len([o for o in obligations.values() if not ("bounded" in o and o["paths"] == 0) and o["name"] not in known_names])
-    replay_dir = os.path.join(VERIF, "replays", pid)
+    replay_dir = os.path.join(OUT, "replays", pid)
     status = 0
     for kf, ob in known:
         path = write_replay(replay_dir, pid, ob, repo_root)
@@ -275,8 +277,8 @@ def run_property(pid, tier="quick", repo_root=None, jobs=None):
         "wall_s": round(wall, 3),
         "violations": len(violations),
     }
-    os.makedirs(os.path.join(VERIF, "evidence"), exist_ok=True)
-    with open(os.path.join(VERIF, "evidence", f"{pid}.json"), "w") as fh:
+    os.makedirs(os.path.join(OUT, "evidence"), exist_ok=True)
+    with open(os.path.join(OUT, "evidence", f"{pid}.json"), "w") as fh:
         json.dump(ev, fh, indent=1, sort_keys=True)
     for l in lines:
         print(l)
